@@ -42,29 +42,54 @@ LEVEL_TEXT = ("Lean 4 theorems for all sizes and all operation histories: the he
               "The LOOPS of Mat*Vec, MatBase*Vec, TransMat*Vec, Vec*TransMat, TransVec*Mat, TransVec*MatBase and VecBase::dot are "
               "regenerated statement by statement from the headers (pointers walking the operands) and proved EQUAL to the executed "
               "closed-form models for all operands; their values are Matrix.mulVec / vecMul / dotProduct for all dimensions over "
-              "any semiring (Vec*TransMat: what the code computes, known finding). Stores of SymMat objects (dim_, idf_, tol_, row_, col_ + "
+              "any semiring (Vec*TransMat: what the code computes, known finding). Round 10: also the loops of Mat*Mat (pointer version), "
+              "TransMat*Mat, Mat*TransMat, TransMat*TransMat, trans(TransMat) and the storage primitives MatVecBase::mul/add/sub and "
+              "operator*= (16 regenerated functions in all) are regenerated and proved EQUAL to the executed models "
+              "(C15_matrix_kernels_source_tie); the four matrix products equal Matrix.mul of the (transposed) views for all dimensions, "
+              "trans(TransMat) returns the transposed view, the primitives return the entrywise result whatever the target held "
+              "(C15_mat_mat_value, C15_transmat_mat_value, C15_mat_transmat_value, C15_transmat_transmat_value, C15_trans_view, "
+              "C15_trans_transmat_value, C15_storage_primitives_value). Stores of SymMat objects (dim_, idf_, tol_, row_, col_ + "
               "MemRep; in-place cholDec and invert) and of Vec objects (implicit moves) refine their value-level semantics for every "
               "history (member lists and move/copy generation regenerated from the headers); histories that CONTINUE after a caught "
               "BadRank/Singular refine the value-level semantics with the same catch rule: a dimension-guard throw leaves every object "
               "unchanged, Singular out of Mat::invert leaves the half-eliminated block the model defines. "
               "Models tied to lib/matvec by a translator (guards) and differential correspondence (exact rational and IEEE double "
               "instances of the same definitions) and an always-on property oracle on the C++ answers.")
-LEVEL_NOTE = ("Trusted: Lean kernel, statements in Props/C15.lean, harness/generator/comparator. The operators whose faithful "
-              "model violates the property (TransMat±TransMat, TransMat*TransMat non-square, TransVec*MatBase, Vec*TransMat, "
-              "SymMat*SymMat, memcpy(nullptr,..,0) on empty copies) are proved to violate it on a witness and reported as "
-              "findings. SVD::svd (Golub-Reinsch) is modelled statement by statement as Svd.decompose (Model/Ls/Svd/Decomp.lean; "
+LEVEL_NOTE = ("Trusted: Lean kernel, statements in Props/C15.lean, C15SvdDecompose.lean, C15Kernels.lean, C15Obj.lean, "
+              "harness/generator/comparator. The two operators whose faithful model still violates the property (Vec*TransMat: "
+              "vec_transmat_violates, guards_vec_transmat_violates, and what it computes: C15_vec_transmat_as_coded; SymMat*SymMat: "
+              "symmat_product_violates) are proved to violate it on a witness and are the two KNOWN findings; the other former "
+              "findings are FIXED in /repo and the models follow the current tree (TransMat(r,c) dimensions f2f37a8: "
+              "transmat_sum_shape; TransMat*TransMat stride cb8c13f and TransVec*MatBase bound ef27491: regression examples; "
+              "memcpy(nullptr,..,0) 87f5175: no_null_memcpy; SymMat of dimension 0 45f8c0a). Regenerated loops: the seven "
+              "vector-valued kernels of C15_kernels_source_tie (round 9) and the nine of C15_matrix_kernels_source_tie (round 10: "
+              "Mat*Mat pointer version, the three TransMat products, trans(TransMat), mul/add/sub/*=); Mat*SymMat, SymMat*SymMat, free "
+              "SymMat + - += -=, Mat(TransMat), Mat+-TransMat, SymMat::cholDec/invert, Mat::invert are hand models behind regenerated "
+              "guards + correspondence; value theorems for MatBase*Vec, TransVec*MatBase (accessor variants) and Mat*SymMat are "
+              "missing (guard, in-bounds and, for the first two, source tie only); sums and scalar multiples of the single classes "
+              "are not composed from the primitives' value theorem. The object stores (MatObj, SymObj, VecObj, ObjCatch incl. what a throwing call "
+              "leaves) are hand models with regenerated member lists. SVD::svd (Golub-Reinsch) is modelled statement by statement as Svd.decompose (Model/Ls/Svd/Decomp.lean; "
               "executed next to the C++ by drv_ls in C01's check, not in this one) and proved to return a factorisation whenever "
               "it returns, for tall, square and wide A (Props/C15SvdDecompose.lean: C15_svd_reconstructs - A = U W V^T, V^T V = 1, "
               "U^T U = 1 on the columns with W != 0, W >= 0; C15_pinv_moore_penrose_svd - pinv from those factors is the "
               "Moore-Penrose inverse provided every singular value set_inv_W drops is an exact zero). Not proved: convergence of "
               "the QR iteration (NoConvergence after 30 sweeps) and rounding: for double the certificate (A = U W V^T, V^T V = 1, "
-              "U^T U = 1 on kept columns, dropped singular values negligible) is still evaluated on the C++'s own U, W, V on every run.")
+              "U^T U = 1 on kept columns, dropped singular values negligible) is still evaluated on the C++'s own U, W, V on every run. "
+              "C15_pinv_of_decompose (the whole pinv from A alone) keeps one hypothesis: every singular value of that run which "
+              "set_inv_W drops is an exact zero.")
 TECHNIQUE = ("Lean 4 proof (refinement + invariant by induction over operation histories; entrywise algebra; loop invariants of "
              "Gauss-Jordan, Cholesky and the symmetric exchange inversion; Moore-Penrose from an SVD certificate) + translator "
-             "(dimension guards, data members of Mat and the initialisation of Mat::pentry, the loops of the matrix-vector products "
-             "and dot regenerated from the headers) + correspondence")
+             "(dimension guards, data members of Mat / SymMat / Vec and the initialisation of Mat::pentry, the loops of the "
+             "matrix-vector products, dot, the Mat / TransMat matrix products, trans(TransMat) and the storage primitives regenerated "
+             "from the headers) + correspondence")
 TRUSTED = ["harness/c15_matvec.cpp: counting replacements of operator new[]/delete[] and a null-counting memcpy wrapper "
-           "(observation only; the wrapper does not forward a null pointer)"]
+           "(observation only; the wrapper does not forward a null pointer)",
+           "translator tools/gen/c15_dimchecks.py (regex over the headers: the BadRank guard of every operator -> Gen/DimChecks; "
+           "a guard nested under a condition, a spurious throw, a class matched by NAME are not noticed)",
+           "translators tools/gen/c15_members.py, c15_members2.py (data members of Mat / SymMat / Vec class chains, declared "
+           "destructors, copies and moves, the initialisation of Mat::pentry -> Gen/MatMembers, Gen/SymVecMembers)",
+           "translator tools/gen/c15_kernels.py on the C front end tools/gen/cfun.py (sixteen functions statement by statement -> "
+           "Gen/MatVecKernels; any other statement form stops the run)"]
 MODELLED = ["IEEE rounding (theorems over ordered fields; Float instance compared with tolerance)",
             "indeterminate content of new Float[n] (model: a fixed placeholder; never observed before written)",
             "SVD::svd (Golub-Reinsch iteration): in THIS check per-run certificate on the C++'s factors (all shapes incl. wide); "
@@ -74,8 +99,13 @@ MODELLED = ["IEEE rounding (theorems over ordered fields; Float instance compare
             "(C15_pinv_moore_penrose_svd)",
             "std::sort (sortvec.h), iostream operators, GSO (gso.h, exercised through C01/C02)",
             "negative dimensions passed to resize/reset/constructors other than MemRep(n<0)",
-            "Mat object after invert() threw Singular (left half eliminated in place): the model stops the history there; "
-            "scripts re-define the object",
+            "objects after a caught exception: modelled since round 9 (Model/ObjCatch.lean: thrown; stream objhist continues "
+            "the history and dumps every object after the throw); Singular out of Mat::invert leaves the half-eliminated "
+            "block (C15_caught_singular_half_eliminated), BadRank out of SymMat::cholDec/invert the partial factor / the "
+            "completed exchange steps - these partial states are definitions of the hand model, compared with the C++, "
+            "not derived from regenerated loops",
+            "move operations: Mat and SymMat have none (declared destructors; rvalue forms are copies), Vec uses MemRep's "
+            "move - computed from the headers (symMoves = false, vecMoves = true) on every run",
             "the two temporaries of Mat::transpose() (allocated and released inside the call; the model consumes no addresses for them)"]
 ASSUMPTIONS = ["element access operator()(r,c) with indices out of range is outside the property (unchecked by design)"]
 
